@@ -82,6 +82,9 @@ type vfc15Judge struct {
 	names    map[string]bool
 	internal string
 	concFrom int64 // stamp from which other goroutines of the client ran (0 = never)
+	// brokersDropped: for a Brokers() read, the newest candidate state it equals except for a broker whose absence no
+	// failed request or dial explains (op index -> description). Such a read may still equal an OLDER state exactly.
+	brokersDropped map[int]string
 }
 
 const vfc15Inf = int64(math.MaxInt64)
@@ -676,6 +679,12 @@ func (j *vfc15Judge) judgeRead(op *vfc15OpRec) *vfcore.Failure {
 				unexplained = dropped
 			}
 		}
+		if unexplained != "" {
+			if j.brokersDropped == nil {
+				j.brokersDropped = map[int]string{}
+			}
+			j.brokersDropped[op.Idx] = unexplained
+		}
 		if len(ms) == 0 {
 			if unexplained != "" {
 				return j.failSpurious("answer:brokers", op, "Brokers()=%v lacks %s although no request or dial to its address failed since", ans.Brokers, unexplained)
@@ -881,6 +890,11 @@ func (j *vfc15Judge) monotonic() *vfcore.Failure {
 					f := vfcore.Failf("non-monotonic-read", "%s: op %d (%s by %s) saw a state that needs a response consumed at >=%d, but op %d (%s by %s), which began after it ended, is only explained by states overwritten before %d: answers %+v then %+v",
 						key, opA.Idx, opA.Step.Kind, opA.Actor, ms[a].minGot, opB.Idx, opB.Step.Kind, opB.Actor, ms[b].maxDone, opA.Ans, opB.Ans)
 					f.History = j.history()
+					if d := j.brokersDropped[opB.Idx]; key == "#brokers" && d != "" {
+						// the later read cannot be the older state it happens to equal; what it shows is the newer state without a
+						// broker that no network failure accounts for: the spurious broker failure, not a stale answer
+						return j.failSpurious("non-monotonic-read", opB, "Brokers()=%v lacks %s although no request or dial to its address failed since (and an earlier read by the same reader had already seen the newer state: %s)", opB.Ans.Brokers, d, f.Message)
+					}
 					return f
 				}
 			}
